@@ -278,8 +278,14 @@ func c02Schemes(c *Ctx) {
 				}) {
 					noType = append(noType, p.Pos(e.Ret.Pos()))
 				}
+				// the size of the signer list: Participants().Len(), len() of the asserted list, or Len() of the asserted
+				// multi-signature itself (a Multi is its own participant set)
+				multiLen := func(k string) bool {
+					return strings.HasPrefix(k, "(hs/security/crypto.Multi[") && strings.Contains(k, "]).Len(assert[") && strings.Contains(k, "](p1)#0)")
+				}
 				if !(hasCmp(facts, "!=", contains(kPartLen+"p1))"), is("c:0")) || hasCmp(facts, "<", is("c:0"), contains(kPartLen+"p1))")) ||
-					hasCmp(facts, "!=", func(k string) bool { return strings.HasPrefix(k, "builtin len(assert[") }, is("c:0"))) {
+					hasCmp(facts, "!=", func(k string) bool { return strings.HasPrefix(k, "builtin len(assert[") }, is("c:0")) ||
+					hasCmp(facts, "!=", multiLen, is("c:0")) || hasCmp(facts, "<", is("c:0"), multiLen)) {
 					noEmpty = append(noEmpty, p.Pos(e.Ret.Pos()))
 				}
 			}
